@@ -17,8 +17,8 @@ META = {
     "level_text": "c17_fwd_order/c17_pipe_order, c17_fwd_read_value/c17_pipe_read_value, c17_fwd_ready, c17_pipe_ready, "
     "c17_fwd_clear/c17_pipe_clear, c17_fwd_peek/c17_pipe_peek hold for every history of simultaneous "
     "write/read/peek/clear attempts and every data value; the models are tied to the code by cycle-exact comparison of done "
-    "bits, returned data and the three ready signals over all histories up to length 2 (thorough: 3) from the empty and the "
-    "full state, directed sequences and random regimes at several data widths",
+    "bits, returned data and the three ready signals over all histories up to length 2 from the empty and the full state "
+    "(thorough: also length 3 from the empty state), directed sequences and random regimes at several data widths",
     "level_note": "trusted: Lean kernel with axioms propext/Quot.sound(/Classical.choice); Amaranth semantics and pysim; data "
     "layouts flattened to one number; that the manager honours schedule_before (write before read in Forwarder, read before "
     "write in Pipe) is C03/C10's subject and is exercised here through the real TransactionManager.",
@@ -42,6 +42,13 @@ def _sim(cls: str, widths: tuple) -> CompSim:
 
 
 def impl(case: Case) -> list[str]:
+    try:
+        return _impl(case)
+    except Exception as e:  # noqa: BLE001 - an exception of the real code is an observation
+        return [f"raise {type(e).__name__}"] + ["-"] * len(case.ops)
+
+
+def _impl(case: Case) -> list[str]:
     d = case.desc
     sim = _sim(d["cls"], tuple(d["layout"]))
     cycs = [parse(line) for line in case.ops]
@@ -62,6 +69,8 @@ def monitor(case: Case, out: list[str]):
     `written`/`delivered` the values of executed writes/reads since the last clear."""
     fwd = case.desc["cls"] == "fwd"
     name = "Forwarder" if fwd else "Pipe"
+    if out[0] != "ok":
+        return f"the component does not elaborate/simulate: {out[0]}"
     buf = None
     written: list[int] = []
     delivered: list[int] = []
@@ -128,6 +137,8 @@ def monitor(case: Case, out: list[str]):
 
 def nontrivial(case: Case, out: list[str]) -> bool:
     """a cycle in which read and write both execute (forwarding / pass-through), or clear coincides with a write"""
+    if out[0] != "ok":
+        return False
     for obs in out[1:]:
         f = fields(obs)
         if f["w"] == "1" and (f["r"] != "-" or f["c"] == "1"):
@@ -152,11 +163,12 @@ def gen_cases(ctx: Check, cls: str) -> list[Case]:
     for n in range(1, L + 1):
         for seq in exhaustive_ops(n, (1, 2)):
             cases.append(_mk(cls, (2,), seq + [(None, 1, 1, 0)], "exhaustive"))
-            cases.append(_mk(cls, (2,), [(3, 0, 0, 0)] + seq + [(None, 1, 1, 0)], "exhaustive"))
+            if n <= 2:  # (length-3 histories from the full state are the length-4 ones starting with a lone write)
+                cases.append(_mk(cls, (2,), [(3, 0, 0, 0)] + seq + [(None, 1, 1, 0)], "exhaustive"))
     layouts = ctx.pick([(1,), (4,), (3, 5), (33,)], [(1,), (2,), (4,), (8,), (3, 5), (1, 1, 2), (16,), (33,), (64, 3)])
     for lay in layouts:
         width = sum(lay)
-        n = ctx.pick(150, 2000)
+        n = ctx.pick(150, 1000)
         for reg in REGIMES:
             cases.append(_mk(cls, lay, random_ops(rng, n, width, *reg), "random"))
         # streaming: producer always writes, consumer stalls now and then (and the converse)
@@ -182,8 +194,8 @@ def run(ctx: Check):
     cases = gen_cases(ctx, "fwd") + gen_cases(ctx, "pipe")
     lockstep(ctx, "forwarder+pipe", "C17", cases, impl, monitor, more_cases, nontrivial, procs=procs)
     ctx.exhaustive = False
-    ctx.note("all histories up to length %d over a 24-letter alphabet are enumerated from both buffer states; "
-             "this validates the model, the unbounded claim is the Lean theorems" % ctx.pick(2, 3))
+    ctx.note("all histories up to length 2 over a 24-letter alphabet are enumerated from both buffer states%s; "
+             "this validates the model, the unbounded claim is the Lean theorems" % ctx.pick("", " and of length 3 from the empty state"))
 
 
 def replay(ctx: Check, body: dict):
